@@ -155,6 +155,20 @@ def worker(chunk):
             elif not div:
                 div = {'why': 'the reference evaluator Sem disagrees with the eager solution of the dataflow equations with '
                               'switches (SolutionSw) on a switch-only pipeline', 'at': -1}
+        if 'error' not in sem and any(n['is_oneof_head'] for n in tr['graph']['nodes']) and \
+                not any(n['start_node'] is not None for n in tr['graph']['nodes']):
+            # switch / one-of pipelines without recurrent subgraphs: do the hypotheses of the one-of safety theorems hold,
+            # and does Sem agree with the eager solution of the equations with one-ofs (SolutionOne)?
+            st = tr.setdefault('stats', {})
+            st['oneof_programs'] = st.get('oneof_programs', 0) + 1
+            if sem.get('one_hyp'):
+                st['oneof_hypotheses_hold'] = st.get('oneof_hypotheses_hold', 0) + 1
+                if sem.get('sem_solves_one'):
+                    st['sem_is_oneof_solution'] = st.get('sem_is_oneof_solution', 0) + 1
+                elif not div and infrag:
+                    div = {'why': 'the reference evaluator Sem disagrees with the eager solution of the dataflow equations with '
+                                  'one-ofs (SolutionOne) on a pipeline that satisfies the hypotheses of the one-of theorems',
+                           'at': -1}
         for pid in want:
             hyp = monitors.HYPOTHESES.get(pid)
             if hyp and not div:
